@@ -75,7 +75,10 @@ theorem lcSize_bounds (length : Int) (h : ¬ (lcSize length < 0 ∨ 2 ^ 31 ≤ l
 /-- **wrapper glue**: the wrapper executed statement by statement over the WORD-LEVEL C++ model
 (`to_bytes`, pybind11 `int` conversion, `LfsrLengthStr` of either variant) returns, on EVERY input
 `(s, length)`, exactly what Model/BM.lean's `linearComplexity` (which assumed the C++ value)
-returns; the C++ model never runs into undefined behaviour (`some`). -/
+returns; the C++ model never runs into the undefined behaviour it can represent, an out-of-bounds
+access (`some`).  NOTE (second review, L27): a statement about the MODEL for every `(s, length)`; the model's
+`int`s are unbounded, so it is a statement about the C++ code only under `CppSizeOk` (`length ≤ 2^30`) —
+see Props/C14WrapperSized.lean. -/
 theorem wrapper_glue (v : Variant) (s : Nat) (length : Int) :
     linearComplexityCpp v s length = (linearComplexity s length).map some := by
   unfold linearComplexityCpp linearComplexity toBytesLE
@@ -102,7 +105,13 @@ theorem wrapper_glue (v : Variant) (s : Nat) (length : Int) :
         · rw [if_pos h4, if_pos (Or.inl h4)]; rfl
         · rw [if_neg h4, if_neg (by omega)]; rfl
 
-/-- no undefined behaviour of the C++ code is reachable through the Python wrapper. -/
+/-- no OUT-OF-BOUNDS ACCESS (the one kind of undefined behaviour the word-level model represents, result
+`none`) is reachable through the Python wrapper, for every `(s, length)`.
+NOTE (second review, L27): this theorem carries no `CppSizeOk` and says NOTHING about signed overflow, which
+the model (unbounded `int`s) cannot represent: for 2^30 < length < 2^31 the wrapper calls the C++ code and
+`2 * lfsr_len` can overflow `int` (real undefined behaviour, reachable).  The statement "no undefined
+behaviour of the C++ code" holds under `CppSizeOk` only:
+`C14WrapperSized.wrapper_no_undefined_behaviour_sized`. -/
 theorem wrapper_no_undefined_behaviour (v : Variant) (s : Nat) (length : Int) (r : Option Int)
     (h : linearComplexityCpp v s length = .ok r) : r ≠ none := by
   rw [wrapper_glue] at h
@@ -118,7 +127,9 @@ theorem wrapper_variants_agree (s : Nat) (length : Int) :
 /-- **total specification of the wrapper** (every `s ≥ 0`, every integer `length`):
 `ValueError` iff `size = (length+7)//8 ∉ [0, 2^31)`; else `OverflowError` iff `s ≥ 256^size`;
 else `TypeError` iff `length ≥ 2^31` (pybind11 `int`); else `-1` iff `length < 0`
-(`length ∈ {-7..-1}`, `s = 0`); else the length of the shortest LFSR of the first `length` bits. -/
+(`length ∈ {-7..-1}`, `s = 0`); else the length of the shortest LFSR of the first `length` bits.
+NOTE (second review, L27): "EVERY (s, length)" is about the model; for 2^30 < length < 2^31 (last branch) the
+C++ code may overflow `int` and need not return this value.  Sized form: `C14WrapperSized.wrapper_spec_sized`. -/
 theorem wrapper_spec (v : Variant) (s : Nat) (length : Int) :
     linearComplexityCpp v s length =
       if lcSize length < 0 ∨ 2 ^ 31 ≤ lcSize length then .error .valueError
